@@ -206,13 +206,13 @@ Definition outs_reachable_multi (p : gpat) : Prop :=
                      nth_error (gp_nodes p) q = Some np /\ i < List.length (np_outs np).
 
 (* the candidate tuples tried by SimplePatternMatcher.match for root node `root` *)
-Definition candidates (p : gpat) (g : hgraph) (root : nid) : list (list nid) :=
+Definition candidates (fl : flags) (p : gpat) (g : hgraph) (root : nid) : list (list nid) :=
   match output_nodes p with
   | [] => []
   | [_] => [[root]]
   | _ :: others =>
       let ids := map (fun q => match nth_error (gp_nodes p) q with Some np => np_opid np | None => None end) others in
-      product ([root] :: candidate_lists (g_nodes g) g ids false)
+      product ([root] :: candidate_lists fl (g_nodes g) g ids false)
   end.
 
 (* what the matcher observed, as a sigma *)
